@@ -97,6 +97,7 @@ func C12(ctx *core.Ctx) {
 		return
 	}
 	c12RejectionLeavesStateAlone(ctx, r)
+	c12ResponseVerdictIsTheServers(ctx, r, "C12.R17")
 	ctx.Rule("C12.R1", "no unbounded write path: every appending method in the method set of *TMemoryOutputBuffer is declared on it and reaches the embedded buffer only through the limit guard", 5)
 	ctx.Rule("C12.R2", "guard exactness: each size guard rejects iff (bytes after the operation) > limit, with limit > 0 && where 0 means unbounded", 6)
 	ctx.Rule("C12.R3", "every transmission is dominated by the pass edge of its transport's guard; the reject edge returns REQUEST_TOO_LARGE", 5)
